@@ -1007,6 +1007,12 @@ func (q *checker) tcheckExprBinaryOp(n *a.Expr, depth uint32) error {
 	return nil
 }
 
+// maxConstValueBitLen bounds the size of intermediate values when folding
+// constant expressions. Far smaller values are already out of range for every
+// type (see minIdeal and maxIdeal), but without a bound here, a short source
+// such as a product of many (1 << 65535) terms takes hours to fold.
+const maxConstValueBitLen = 1 << 20
+
 func evalConstValueBinaryOp(tm *t.Map, n *a.Expr, l *big.Int, r *big.Int) (*big.Int, error) {
 	switch n.Operator() {
 	case t.IDXBinaryPlus:
@@ -1014,6 +1020,9 @@ func evalConstValueBinaryOp(tm *t.Map, n *a.Expr, l *big.Int, r *big.Int) (*big.
 	case t.IDXBinaryMinus:
 		return big.NewInt(0).Sub(l, r), nil
 	case t.IDXBinaryStar:
+		if (l.BitLen() + r.BitLen()) > maxConstValueBitLen {
+			return nil, fmt.Errorf("check: const expression %q is too large", n.Str(tm))
+		}
 		return big.NewInt(0).Mul(l, r), nil
 	case t.IDXBinarySlash:
 		if r.Sign() == 0 {
@@ -1026,6 +1035,9 @@ func evalConstValueBinaryOp(tm *t.Map, n *a.Expr, l *big.Int, r *big.Int) (*big.
 		if r.Sign() < 0 || r.Cmp(ffff) > 0 {
 			return nil, fmt.Errorf("check: shift %q out of range in const expression %q",
 				n.RHS().AsExpr().Str(tm), n.Str(tm))
+		}
+		if (uint64(l.BitLen()) + r.Uint64()) > maxConstValueBitLen {
+			return nil, fmt.Errorf("check: const expression %q is too large", n.Str(tm))
 		}
 		return big.NewInt(0).Lsh(l, uint(r.Uint64())), nil
 	case t.IDXBinaryShiftR:
@@ -1156,6 +1168,9 @@ func evalConstValueAssociativeOp(tm *t.Map, n *a.Expr) (*big.Int, error) {
 			if cv := o.AsExpr().ConstValue(); cv == nil {
 				return nil, nil
 			} else {
+				if (ncv.BitLen() + cv.BitLen()) > maxConstValueBitLen {
+					return nil, fmt.Errorf("check: const expression is too large")
+				}
 				ncv.Mul(ncv, cv)
 			}
 		}
